@@ -211,7 +211,7 @@ pub fn run_generic(cx: &mut Ctx, fmt: Fmt) {
         }
     }
     // directed: lengths around the 8-token and 18-byte / 16,17,272,273,4096 boundaries
-    let lens: Vec<usize> = if miri { vec![1, 8, 9, 19, 40] } else { (0..=40).chain([271, 272, 273, 274, 275, 4095, 4096, 4097, 4098, 4099, 4100, 4113, 4114, 8192, 8193, 8194, 8195, 8210, 12289, 12290, 12291, 16385, 16386, 65537, 65538]).collect() };
+    let lens: Vec<usize> = if miri { vec![1, 8, 9, 19, 40] } else { (0..=40).chain([271, 272, 273, 274, 275, 4095, 4096, 4097, 4098, 4099, 4100, 4113, 4114, 8192, 8193, 8194, 8195, 8210, 12289, 12290, 12291, 16385, 16386, 65537, 65538, 65539, 65540, 65541, 65542, 131075, 131076, 131077]).collect() };
     for &n in &lens {
         if n == 0 && fmt == Fmt::Lz13 {
             continue;
@@ -278,6 +278,33 @@ pub fn run_generic(cx: &mut Ctx, fmt: Fmt) {
                 check_compress(c, fmt, &v, &format!("{} bytes + run of 20 + 16-bit counters (no repeat for > 64 KiB) + run", pre));
             });
         }
+        // a block that comes back 65536 + d bytes later (d inside the window) with nothing but zeros
+        // in between; and a quarter of a megabyte of word-structured text with one very common trigram
+        cx.case("block_repeated_64KiB_plus_d_later", |c| {
+            c.sit("block_repeated_64KiB_plus_d_later");
+            let mut rng = crate::prng::Rng::new(0xB10C);
+            for d in [2usize, 3, 24, 100, 1000, 4095, 4096] {
+                for k in [1usize, 2] {
+                    let block = rng.bytes(24);
+                    let mut v = block.clone();
+                    v.resize(65536 * k + d, 0);
+                    v.extend_from_slice(&block);
+                    v.extend_from_slice(b"end");
+                    check_compress(c, fmt, &v, &format!("24-byte block, zeros, the same block {} bytes later", 65536 * k + d));
+                }
+            }
+        });
+        cx.case("text_with_one_very_common_trigram", |c| {
+            c.sit("text_with_one_very_common_trigram");
+            let mut rng = crate::prng::Rng::new(0x7E87);
+            let mut v: Vec<u8> = Vec::with_capacity(260_000);
+            while v.len() < 250_000 {
+                v.extend_from_slice(b"ABC");
+                v.push(rng.u8());
+                v.push(rng.u8());
+            }
+            check_compress(c, fmt, &v, "50 000 x ('ABC' + 2 random bytes)");
+        });
         // two large inputs of equal length compressed one after the other, differing only in a few
         // bytes deep inside: each call's output depends on its own input alone
         cx.case("similar_large_inputs_back_to_back", |c| {
@@ -299,6 +326,29 @@ pub fn run_generic(cx: &mut Ctx, fmt: Fmt) {
             let mut d = a.clone();
             d[99_999 - 40_000] ^= 1;
             check_compress(c, fmt, &d, "A with one bit changed, right after A");
+        });
+    }
+    // expanding a file someone else compressed (not the canonical stream, zero-padded to a multiple
+    // of four as retail files are), then compressing exactly those bytes again in the same process
+    for k in 0..(if miri { 1 } else { 12 }) {
+        cx.case("compress_after_expanding_a_foreign_stream", |c| {
+            c.sit("compress_after_expanding_a_foreign_stream");
+            let mut rng = c.rng.clone();
+            let kind = if fmt == Fmt::Lz10 { crate::refs::lz::Kind::Lz10 } else { crate::refs::lz::Kind::Lz11 };
+            let (t, d) = crate::refs::lz::gen_tokens(&mut rng, kind, if miri { 30 } else { 400 });
+            c.rng = rng;
+            if d.is_empty() {
+                return;
+            }
+            let mut s = crate::refs::lz::encode(kind, &t, d.len());
+            if k % 2 == 0 {
+                while s.len() % 4 != 0 {
+                    s.push(0);
+                }
+            }
+            let s = if fmt == Fmt::Lz13 { crate::refs::lz::wrap13(&s) } else { s };
+            let _ = decompress(c, fmt, &s);
+            check_compress(c, fmt, &d, "the data of a foreign stream that was expanded just before");
         });
     }
     // inputs that are themselves compressed streams (an already-compressed file compressed again)
@@ -366,7 +416,7 @@ pub fn run_generic(cx: &mut Ctx, fmt: Fmt) {
         });
     }
     if !cx.a.quick() && !miri && cx.a.scale >= 0.99 {
-        if fmt == Fmt::Lz10 {
+        {
             // more than 4 MiB of word-structured text: short matches nearby, longer ones further back
             cx.case("large_text_like_4MiB", |c| {
                 c.sit("large_input");
